@@ -59,9 +59,36 @@ Lemma rbind_eq {A B} (r : R A) (f : A -> R B) i p a i1 p1 :
   r i p = Ok (a, i1, p1) -> rbind r f i p = f a i1 p1.
 Proof. unfold rbind. now intros ->. Qed.
 
+(* the length tests of [read_exact], [take_slice], [ralign] ([has_len], which only walks the bytes
+   it is about to take) in terms of [nlen] *)
+Lemma read_exact_eq n i p :
+  read_exact n i p = if n <=? nlen i then Ok (ntake n i, ndrop n i, p + n) else Err ReadError.
+Proof. unfold read_exact. now rewrite has_len_spec. Qed.
+
+Lemma take_slice_eq n i p :
+  take_slice n i p = if n <=? nlen i then Ok (ntake n i, ndrop n i, p + n) else Panic PBounds.
+Proof. unfold take_slice. now rewrite has_len_spec. Qed.
+
+Lemma ralign_eq rk u i p :
+  ralign rk u i p =
+  if u =? 0 then Panic PArith else
+  let pad := pad_align_to p u in
+  match rk with
+  | None => match read_exact pad i p with
+            | Ok (_, i', p') => Ok (tt, i', p')
+            | Err e => Err e
+            | Panic w => Panic w
+            end
+  | Some base =>
+      if pad <=? nlen i then
+        if (base + (p + pad)) mod u =? 0 then Ok (tt, ndrop pad i, p + pad) else Err AlignmentError
+      else Panic PBounds
+  end.
+Proof. unfold ralign. now rewrite has_len_spec. Qed.
+
 Lemma read_exact_app b rest p : read_exact (nlen b) (b ++ rest) p = Ok (b, rest, p + nlen b).
 Proof.
-  unfold read_exact. rewrite nlen_app.
+  rewrite read_exact_eq. rewrite nlen_app.
   destruct (N.leb_spec (nlen b) (nlen b + nlen rest)); [|lia].
   rewrite ntake_app_le, ndrop_app_le by lia.
   rewrite ntake_all, ndrop_all by lia. reflexivity.
@@ -69,7 +96,7 @@ Qed.
 
 Lemma take_slice_app b rest p : take_slice (nlen b) (b ++ rest) p = Ok (b, rest, p + nlen b).
 Proof.
-  unfold take_slice. rewrite nlen_app.
+  rewrite take_slice_eq. rewrite nlen_app.
   destruct (N.leb_spec (nlen b) (nlen b + nlen rest)); [|lia].
   rewrite ntake_app_le, ndrop_app_le by lia.
   rewrite ntake_all, ndrop_all by lia. reflexivity.
@@ -129,7 +156,7 @@ Proof.
   destruct (N.eqb_spec u 0) as [|_]; [contradiction|].
   destruct (N.eqb_spec (pad_align_to pos u) 0) as [Hz|Hz]; inv H.
   - cbn [bytes_of evs_len app]. rewrite Hz.
-    unfold read_exact. destruct (N.leb_spec 0 (nlen rest)); [|lia].
+    rewrite read_exact_eq. destruct (N.leb_spec 0 (nlen rest)); [|lia].
     rewrite ndrop_0, N.add_0_r. reflexivity.
   - cbn [bytes_of ev_bytes evs_len ev_len]. rewrite app_nil_r, N.add_0_r.
     set (pd := pad_align_to pos u).
